@@ -85,4 +85,47 @@ def reviewedUntypedRangeSites : List Site := [
   ("types/types.go", "ParsePortConfig", "range", "ports"),
   ("utils/pathutils.go", "getSymbolinkLink", "range", "parts")]
 
+/-- every package-level variable of the library.  Read-only after `init` unless listed in `reviewedGlobalWrites`:
+rule tables (`mergeSpecials`, `unique`, `transformers`, `defaultValues`, `checks`, `interpolateTypeCastMapping`,
+`bindOptions`, `omitempty`, `userDefinedKeys`) are filled by `init`/literals and only ranged or indexed afterwards;
+compiled regular expressions, sentinel errors, string constants declared with `var`, default file-name slices.
+A new package-level variable (a cache, a counter, a registry) breaks `packageVars_reviewed` until it is reviewed. -/
+def reviewedPackageVars : List Site := [
+  ("cli/options.go", "", "slice", "DefaultFileNames"),
+  ("cli/options.go", "", "slice", "DefaultOverrideFileNames"),
+  ("dotenv/format.go", "", "map", "formats"),
+  ("dotenv/godotenv.go", "", "func", "noLookupFn"),
+  ("dotenv/godotenv.go", "", "slice", "utf8BOM"),
+  ("dotenv/godotenv.go", "", "unknown", "startsWithDigitRegex"),
+  ("dotenv/parser.go", "", "unknown", "escapeSeqRegex"),
+  ("dotenv/parser.go", "", "unknown", "exportRegex"),
+  ("errdefs/errors.go", "", "unknown", "ErrDisabled"),
+  ("errdefs/errors.go", "", "unknown", "ErrIncompatible"),
+  ("errdefs/errors.go", "", "unknown", "ErrInvalid"),
+  ("errdefs/errors.go", "", "unknown", "ErrNotFound"),
+  ("errdefs/errors.go", "", "unknown", "ErrUnsupported"),
+  ("format/volume.go", "", "map", "bindOptions"),
+  ("format/volume.go", "", "slice", "Propagations"),
+  ("loader/interpolate.go", "", "map", "interpolateTypeCastMapping"),
+  ("loader/loader.go", "", "slice", "userDefinedKeys"),
+  ("loader/loader.go", "", "slice", "versionWarning"),
+  ("loader/omitEmpty.go", "", "slice", "omitempty"),
+  ("override/merge.go", "", "map", "mergeSpecials"),
+  ("override/uncity.go", "", "map", "unique"),
+  ("schema/schema.go", "", "basic", "Schema"),
+  ("template/template.go", "", "basic", "delimiter"),
+  ("template/template.go", "", "basic", "groupBraced"),
+  ("template/template.go", "", "basic", "groupEscaped"),
+  ("template/template.go", "", "basic", "groupInvalid"),
+  ("template/template.go", "", "basic", "groupNamed"),
+  ("template/template.go", "", "basic", "substitutionBraced"),
+  ("template/template.go", "", "basic", "substitutionNamed"),
+  ("template/template.go", "", "unknown", "DefaultPattern"),
+  ("template/template.go", "", "unknown", "patternString"),
+  ("transform/canonical.go", "", "map", "transformers"),
+  ("transform/defaults.go", "", "map", "defaultValues"),
+  ("types/config.go", "", "unknown", "isCaseInsensitiveEnvVars"),
+  ("types/hostList.go", "", "slice", "hostListSerapators"),
+  ("validation/validation.go", "", "map", "checks")]
+
 end CV.Det.Spec
